@@ -41,6 +41,9 @@ pub struct BhCase {
     pub clones: u8,
     pub callers: Vec<Caller>,
     pub order: Vec<u8>,
+    /// callers keep the resolved response future alive for this long before dropping it
+    #[serde(default)]
+    pub hold: Option<u64>,
 }
 
 fn case_strategy(tier: Tier) -> BoxedStrategy<BhCase> {
@@ -81,13 +84,15 @@ fn case_strategy(tier: Tier) -> BoxedStrategy<BhCase> {
         1u8..=4,
         prop::collection::vec(caller, 2..=callers_hi),
         prop::collection::vec(any::<u8>(), 0..=48),
+        prop_oneof![3 => Just(None), 1 => (1u64..=40).prop_map(Some)],
     )
-        .prop_map(|(max, wait, clones, callers, order)| BhCase {
+        .prop_map(|(max, wait, clones, callers, order, hold)| BhCase {
             max,
             wait,
             clones,
             callers,
             order,
+            hold,
         })
         .boxed()
 }
@@ -161,6 +166,7 @@ async fn interp(case: &BhCase) -> Verdict {
     let mut v = Verdict::default();
     let log = Log::new();
     let mut sim = Sim::new(log.clone(), case.order.clone());
+    sim.hold_resolved_ms = case.hold;
     let max = case.max as i64;
 
     let mut table: HashMap<u32, Vec<Step>> = HashMap::new();
@@ -238,7 +244,10 @@ async fn interp(case: &BhCase) -> Verdict {
             let mut w = [0usize; 2];
             for (i, c) in case.callers.iter().enumerate() {
                 if let Some(task) = rt[i].task {
-                    if sim.state(task) == TaskState::Live && !entered(l, i as u32) {
+                    let resolved = l
+                        .iter()
+                        .any(|e| matches!(e, Ev::Resolve { task: tk, .. } if *tk == task));
+                    if sim.state(task) == TaskState::Live && !entered(l, i as u32) && !resolved {
                         w[c.svc2 as usize] += 1;
                     }
                 }
@@ -292,7 +301,8 @@ async fn interp(case: &BhCase) -> Verdict {
                 }
             }
             if let (Some(d), Some(task)) = (c.cancel_after, rt[i].task) {
-                if c.at + d == t && sim.state(task) == TaskState::Live {
+                let resolved = log.with(|l| l.iter().any(|e| matches!(e, Ev::Resolve { task: tk, .. } if *tk == task)));
+                if c.at + d == t && sim.state(task) == TaskState::Live && !resolved {
                     let ent = log.with(|l| entered(l, i as u32));
                     rt[i].entered_before_cancel = ent;
                     rt[i].cancelled_at = Some(t);
@@ -328,7 +338,10 @@ async fn interp(case: &BhCase) -> Verdict {
                     continue;
                 }
                 if let Some(task) = rt[i].task {
-                    if sim.state(task) == TaskState::Live && !entered(&snap, i as u32) {
+                    let resolved = snap
+                        .iter()
+                        .any(|e| matches!(e, Ev::Resolve { task: tk, .. } if *tk == task));
+                    if sim.state(task) == TaskState::Live && !entered(&snap, i as u32) && !resolved {
                         waiting.push(i);
                     }
                 }
@@ -610,6 +623,9 @@ async fn interp(case: &BhCase) -> Verdict {
     if saw_delayed_poll {
         v.classes.push("first_poll_later_than_call");
     }
+    if case.hold.is_some() {
+        v.classes.push("resolved_future_kept_alive");
+    }
     v.nontrivial_c01 = saw_full_with_queue
         && (saw_cancel_queued || saw_cancel_running || saw_panic || saw_release_and_arrival);
     v.nontrivial_c07 = saw_panic || saw_cancel_queued || saw_cancel_running;
@@ -633,8 +649,8 @@ impl Property for C01 {
     }
     fn budget(&self, tier: Tier) -> (u32, usize) {
         match tier {
-            Tier::Quick => (80_000, 8),
-            Tier::Thorough => (2_000_000, 16),
+            Tier::Quick => (120_000, 8),
+            Tier::Thorough => (4_000_000, 16),
         }
     }
     fn run(&self, case: &BhCase) -> Report {
@@ -670,8 +686,8 @@ impl Property for C07 {
     }
     fn budget(&self, tier: Tier) -> (u32, usize) {
         match tier {
-            Tier::Quick => (80_000, 8),
-            Tier::Thorough => (2_000_000, 16),
+            Tier::Quick => (120_000, 8),
+            Tier::Thorough => (4_000_000, 16),
         }
     }
     fn run(&self, case: &BhCase) -> Report {
